@@ -130,8 +130,14 @@ pub fn facts(v: &Value, registry: &TrustAnchorRegistry, transcript: &Value) -> S
     let chain_errs = chain.as_ref().map(|c| ValidationRuleset::Mdl.validate(c, registry).errors.len()).unwrap_or(0);
     // the key of the FIRST certificate of the x5chain, parsed with x509-cert directly (not through the library's X5Chain)
     let first_der: Option<Vec<u8>> = match &x5v { Some(Value::Bytes(b)) => Some(b.clone()), Some(Value::Array(a)) => a.first().and_then(|x| x.as_bytes().cloned()), _ => None };
-    let ikey: Option<VerifyingKey> = first_der.and_then(|d| { use der::Decode; x509_cert::Certificate::from_der(&d).ok() })
-        .and_then(|c| VerifyingKey::from_sec1_bytes(c.tbs_certificate.subject_public_key_info.subject_public_key.raw_bytes()).ok());
+    let first_cert = first_der.and_then(|d| { use der::Decode; x509_cert::Certificate::from_der(&d).ok() });
+    // the decisive part of "validates against a configured IACA trust anchor", computed here and not by the library: the first
+    // certificate's signature verifies under the P-256 key of some configured IACA anchor
+    let anchored = first_cert.as_ref().map(|cert| { use der::Encode; let tbs = cert.tbs_certificate.to_der().unwrap(); let sig = p256::ecdsa::Signature::from_der(cert.signature.raw_bytes());
+        registry.anchors.iter().any(|a| matches!(a.purpose, TrustPurpose::Iaca) && sig.as_ref().map(|s| VerifyingKey::from_sec1_bytes(a.certificate.tbs_certificate.subject_public_key_info.subject_public_key.raw_bytes())
+            .map(|k| k.verify(&tbs, s).is_ok()).unwrap_or(false)).unwrap_or(false)) }).unwrap_or(false);
+    let chain_errs = if chain.is_some() && !anchored { chain_errs.max(1) } else { chain_errs };
+    let ikey: Option<VerifyingKey> = first_cert.and_then(|c| VerifyingKey::from_sec1_bytes(c.tbs_certificate.subject_public_key_info.subject_public_key.raw_bytes()).ok());
     let prot = ia.and_then(|a| a.first()).and_then(|p| p.as_bytes()).cloned().unwrap_or_default();
     let payload = ia.and_then(|a| a.get(2)).and_then(|p| p.as_bytes()).cloned();
     let isig = ia.and_then(|a| a.get(3)).and_then(|p| p.as_bytes()).cloned().unwrap_or_default();
@@ -337,6 +343,13 @@ pub fn run_c03(ctx: &mut Ctx) {
           if let Value::Map(m) = &mut issuer_auth_mut(&mut v)[1] { for (k, x) in m.iter_mut() { if k.as_integer().map(i128::from) == Some(33) { *x = arr.clone(); } } } go(ctx, "x5chain-array-leaf-first", &v); }
         { let mut v = base.clone(); use der::Encode; let arr = Value::Array(vec![Value::Bytes(pki.iaca.to_der().unwrap()), Value::Bytes(pki.ds.to_der().unwrap())]);
           if let Value::Map(m) = &mut issuer_auth_mut(&mut v)[1] { for (k, x) in m.iter_mut() { if k.as_integer().map(i128::from) == Some(33) { *x = arr.clone(); } } } go(ctx, "x5chain-array-root-first", &v); }
+        // two mDL documents in one response: one signed by the attacker's own (untrusted) signer, the genuine one before / after it.
+        // The status concerns the FIRST mDL document (the one whose elements are reported)
+        for forged_first in [true, false] { let mut v = base.clone();
+            let mut f = v.clone(); subst(&mut f, &forged); resign_issuer(&mut f, &attacker);
+            let fdoc = doc0(&f).cloned().unwrap();
+            if let Some(Value::Array(docs)) = mget_mut(&mut v, "documents") { if forged_first { docs.insert(0, fdoc); } else { docs.push(fdoc); } }
+            go(ctx, if forged_first { "two-mdl-documents-attacker-signed-then-genuine" } else { "two-mdl-documents-genuine-then-attacker-signed" }, &v); }
     }
 }
 
@@ -430,6 +443,15 @@ pub fn run_c04(ctx: &mut Ctx) {
           if let Some(Value::Array(docs)) = mget_mut(&mut v, "documents") { docs.push(forged); }
           go(ctx, "two-mdl-documents-authentic-empty-then-forged", &mut v, false); }
         { let mut v = base.clone(); let forged = doc0(&v).cloned().unwrap(); if let Some(Value::Array(docs)) = mget_mut(&mut v, "documents") { docs.push(forged); } go(ctx, "two-mdl-documents-duplicate", &mut v, false); }
+        // the other order: a forged mDL document (an altered item, so its digests no longer match) FIRST, the authentic one after it -
+        // whatever is reported must have been authenticated, and what is authenticated is the first mDL document
+        { let mut v = base.clone();
+          let mut forged = doc0(&v).cloned().unwrap();
+          if let Some(Value::Array(items)) = mget_mut(mget_mut(&mut forged, "issuerSigned").unwrap(), "nameSpaces").and_then(|n| mget_mut(n, NS)) {
+              items.push(Value::Tag(24, Box::new(Value::Bytes(to_bytes(&Value::Map(vec![(Value::Text("digestID".into()), Value::Integer(4322.into())), (Value::Text("random".into()), Value::Bytes(vec![8; 16])),
+                  (Value::Text("elementIdentifier".into()), Value::Text("age_over_21".into())), (Value::Text("elementValue".into()), Value::Bool(true))])))))); }
+          if let Some(Value::Array(docs)) = mget_mut(&mut v, "documents") { docs.insert(0, forged); }
+          go(ctx, "two-mdl-documents-forged-then-authentic", &mut v, false); }
     }
 }
 
